@@ -216,12 +216,17 @@ type scriptedIface struct {
 	name, desc string
 	log        *dispatchLog
 	defaultID  string
+	// hook, if set, runs at the start of every dispatch (used to hold a handler until told to go on)
+	hook func(method string)
 }
 
 func (s *scriptedIface) VarlinkGetName() string        { return s.name }
 func (s *scriptedIface) VarlinkGetDescription() string { return s.desc }
 
 func (s *scriptedIface) VarlinkDispatch(ctx context.Context, c varlink.Call, methodname string) error {
+	if s.hook != nil {
+		s.hook(methodname)
+	}
 	sc := decodeScript(c.In.Parameters)
 	inv := invocation{iface: s.name, method: methodname}
 	for _, a := range sc.acts {
